@@ -1,12 +1,21 @@
 (** C03 - strict mode accepts an input only if every size field is exact.
-    PROVED: the mechanism - what each of the three size errors means when it is raised, and that a sized region
-    closes normally only when exactly filled (operation level, all states).  NOT YET PROVED: the composition over
-    whole types ("accepted => every size field equals its region", "no earlier point was decidable"); decided
-    by the oracle (accepted => the specification parses the input with exact sizes; arithmetic of every reported
-    error recomputed from the emitted events) and the model correspondence on fault-enumerated inputs.
+    PROVED: (composition, every structure type passing the table checks - all decodable types and area types of the
+    regenerated tables do -, all byte strings) strict decoding ACCEPTS an input if and only if the specification reads
+    the whole input as a value of the type with valid leaves - and the specification takes a size-prefixed region to
+    be exactly as long as its size field says: so acceptance implies that every TPM2B size equals the byte length of
+    the region it governs, and the events are the specified ones (Proofs/Comp1-3.v: a completed strict run can be
+    restricted to the bytes it consumed; it has charged every live region exactly the bytes read, so a region that
+    closes normally was filled exactly; from this the specification's reading is rebuilt by induction on the type).
+    (mechanism) what each of the three size errors means when it is raised, and that a sized region closes normally
+    only when exactly filled (operation level, all states).
+    NOT YET PROVED: the converse direction for the Command / Response / stream roots (commandSize, responseSize,
+    authSize, parameterSize) and "no earlier point was decidable"; decided by the oracle (accepted => the
+    specification parses the input with exact sizes; arithmetic of every reported error recomputed from the emitted
+    events) and the model correspondence on fault-enumerated inputs.
     Statement file: theorem statements, [exact], Print Assumptions only. *)
 From Coq Require Import ZArith List String Bool.
-From TV Require Import Layout.Types Model.Monad Model.Constraints Proofs.Account Proofs.OpLemmas.
+From TV Require Import Layout.Types gen.Tables Base.Bytes Model.Monad Model.Constraints Model.Message Model.Pump Spec.Message
+  Proofs.Account Proofs.OpLemmas Proofs.Safe1 Proofs.Comp2 Proofs.Comp3.
 Import ListNotations.
 Open Scope Z_scope.
 
@@ -49,3 +58,18 @@ Theorem C03_region_closes_only_when_exact_partial :
     end.
 Proof. exact assert_done_strict. Qed.
 Print Assumptions C03_region_closes_only_when_exact_partial.
+
+(** every structure type passing the checks, every byte string: accepted exactly when well-formed - in particular
+    with every size field equal to the length of its region - and then with exactly the specified events *)
+Theorem C03_types_accept_iff_well_formed :
+  forall T t bs evs, safe_ty t = true -> lp_ty t = true -> Forall isbyte bs ->
+    (decode T true (RType t) bs = (evs, OAccepted) <-> spec_events T (RType t) bs = Some evs).
+Proof. exact types_accept_iff_specified. Qed.
+Print Assumptions C03_types_accept_iff_well_formed.
+
+(** the regenerated tables: every decodable type and every area type has list elements that take at least a byte *)
+Theorem C03_tables_lists_progress :
+  forallb (fun nt => is_union (snd nt) || lp_ty (snd nt)) (types Tables.T) &&
+  forallb (fun kt => lp_ty (snd kt)) (cmd_handles Tables.T ++ cmd_params Tables.T ++ rsp_handles Tables.T ++ rsp_params Tables.T) = true.
+Proof. vm_compute. reflexivity. Qed.
+Print Assumptions C03_tables_lists_progress.
